@@ -1,11 +1,14 @@
 //! Determinism (C04): a seeded ring network with jittered channels, modules that draw random
 //! numbers, and async tasks racing two equal-deadline sleeps in `tokio::select!`.
 //!
-//! script := seed k (lat jit)*k  nk (time dst ttl)*nk  rounds d  [oracle …]   (the oracle part is for the model only)
+//! script := seed k (lat jit)*k  nk (time dst ttl)*nk  rounds d  ntasks restarts  [oracle …]   (oracle: model only)
 //!   module i forwards on gate "out" through a channel (latency lat_i ns, jitter jit_i ns, unlimited bitrate)
 //!   to module (i+1) mod k.  handle_message(ttl, token): r = random::<u64>() % 4, log, and if ttl > 0 and
 //!   r != 0 forward (ttl-1, token).  If rounds > 0 every module runs a task doing `rounds` times
-//!   select!{ sleep(d) => 0, sleep(d) => 1 } and logs the winning branch.
+//!   select!{ sleep(d) => 0, sleep(d) => 1 } and logs the winning branch.  A further module "aux" (not on the
+//!   ring) runs `ntasks` such tasks side by side (equal deadlines in one module: wake order is observable through
+//!   the random value each task draws after waking) and, if restarts > 0, a controller task that shuts the module
+//!   down and restarts it (the restarted module spawns its tasks again on a freshly seeded tokio runtime).
 //!
 //! The simulation is executed THREE times with the same seed: twice in this process, once in a child
 //! process.  Output:  eq12 eq13  n  (m now ttl token r jit)*n
@@ -16,6 +19,7 @@ use des::prelude::*;
 use implrun::Cur;
 use std::io::{Read, Write};
 use std::process::{Command, Stdio};
+use std::sync::atomic::{AtomicU64, Ordering::SeqCst};
 use std::sync::Mutex;
 
 static MSGLOG: Mutex<Vec<u64>> = Mutex::new(Vec::new());
@@ -23,6 +27,43 @@ static TASKLOG: Mutex<Vec<u64>> = Mutex::new(Vec::new());
 
 fn now() -> u64 {
     SimTime::now().as_nanos() as u64
+}
+
+static RESTARTS_LEFT: AtomicU64 = AtomicU64::new(0);
+
+struct Aux {
+    ntasks: u64,
+    rounds: u64,
+    d: u64,
+}
+
+impl Module for Aux {
+    fn at_sim_start(&mut self, _stage: usize) {
+        let (rounds, d) = (self.rounds.max(1), self.d);
+        for t in 0..self.ntasks {
+            tokio::spawn(async move {
+                for rd in 0..rounds {
+                    let dur = Duration::from_nanos(d);
+                    let b = tokio::select! {
+                        _ = des::time::sleep(dur) => 0u64,
+                        _ = des::time::sleep(dur) => 1u64,
+                    };
+                    TASKLOG.lock().unwrap().extend([100 + t, now(), rd, b, random::<u64>() % 1000]);
+                }
+            });
+        }
+        if RESTARTS_LEFT.load(SeqCst) > 0 {
+            RESTARTS_LEFT.fetch_sub(1, SeqCst);
+            let wait = d * rounds / 2 + 1;
+            tokio::spawn(async move {
+                des::time::sleep(Duration::from_nanos(wait)).await;
+                TASKLOG.lock().unwrap().extend([99, now(), 0, 0, 0]);
+                current().shutdow_and_restart_in(Duration::from_nanos(1));
+            });
+        }
+    }
+
+    fn handle_message(&mut self, _msg: Message) {}
 }
 
 struct Ring {
@@ -82,6 +123,9 @@ fn run_once(nums: &[u64]) -> (Vec<u64>, Vec<u64>) {
     }
     let rounds = c.next() % 8;
     let d = c.next().max(1);
+    let ntasks = c.next() % 5;
+    let restarts = c.next() % 4;
+    RESTARTS_LEFT.store(restarts, SeqCst);
 
     MSGLOG.lock().unwrap().clear();
     TASKLOG.lock().unwrap().clear();
@@ -89,6 +133,9 @@ fn run_once(nums: &[u64]) -> (Vec<u64>, Vec<u64>) {
     let mut sim = Sim::new(());
     for i in 0..k {
         sim.node(format!("n{i}"), Ring { i, lat: lat[i as usize], rounds, d });
+    }
+    if ntasks > 0 {
+        sim.node("aux", Aux { ntasks, rounds, d });
     }
     for i in 0..k {
         let out = sim.gate(format!("n{i}"), "out");
